@@ -1168,6 +1168,8 @@ def main(outfile):
                                write_if_changed=write_if_changed, block=block))
     import py2lean_fsm
     py2lean_fsm.main_fsm(os.path.join(os.path.dirname(outfile), 'TranslatedFsm.lean'), sys.modules[__name__])
+    import py2lean_oasync                                        # separate module: OutputAsync, shield_cancel (C12)
+    py2lean_oasync.main(os.path.join(os.path.dirname(outfile), 'TranslatedOutputAsync.lean'), dict(Untranslatable=Untranslatable, node_path=node_path, fn_ast=fn_ast, emit=emit, write_if_changed=write_if_changed))
 
 
 if __name__ == '__main__':
